@@ -957,9 +957,12 @@ fn duplex_enumeration(depth: usize) -> (u64, u64, Option<(String, String, serde_
         R(u8, usize),
         Shut(u8),
         Flush(u8),
+        /// vectored write of k bytes in two slices; the bytes differ from step to step, so a write that is given up
+        /// after `Pending` and followed by another one offers different data
+        WV(u8, usize),
     }
     // (R(1, 0): a read with no free room — a readiness probe — must not be mistaken for end of stream)
-    let ops = [D::W(0, 1), D::W(0, 3), D::R(1, 1), D::R(1, 8), D::R(1, 0), D::Shut(0), D::Flush(0), D::W(1, 2), D::R(0, 2), D::Shut(1)];
+    let ops = [D::W(0, 1), D::W(0, 3), D::R(1, 1), D::R(1, 8), D::R(1, 0), D::Shut(0), D::Flush(0), D::W(1, 2), D::R(0, 2), D::Shut(1), D::WV(0, 3)];
     let mut n = 0u64;
     let mut classes: BTreeSet<String> = BTreeSet::new();
     let mut viol = None;
@@ -984,14 +987,16 @@ fn duplex_enumeration(depth: usize) -> (u64, u64, Option<(String, String, serde_
                 for (si, op) in seq.iter().enumerate() {
                     let err = |m: String| Some((format!("duplex wrap={wrap} problem={}", m.split(':').next().unwrap_or("")), format!("duplex(buf {bufsize}, wrap {wrap}) step {si} of {seq:?}: {m}"), json!({"engine":"iomc-c18-duplex","wrap":wrap,"bufsize":bufsize,"sequence":format!("{seq:?}")})));
                     match *op {
-                        D::W(e, k) => {
+                        D::W(e, k) | D::WV(e, k) => {
                             let e = e as usize;
-                            let data: Vec<u8> = (0..k).map(|i| b'a' + (counter[e] + i as u8) % 26 + (e as u8) * 0).collect();
-                            let seen = ends[e].write(&data);
+                            let vectored = matches!(*op, D::WV(..));
+                            let data: Vec<u8> = if vectored { (0..k).map(|i| b'A' + ((si * 7 + i) % 26) as u8).collect() } else { (0..k).map(|i| b'a' + (counter[e] + i as u8) % 26 + (e as u8) * 0).collect() };
+                            let seen = if vectored { ends[e].write_vectored(&data[..1], &data[1..]) } else { ends[e].write(&data) };
                             let room = bufsize - fifo[e].len();
                             match seen {
                                 Seen::Wrote(m) => {
                                     if shut[e] { viol = viol.or(err(format!("write-after-shutdown: accepted {m} bytes"))); }
+                                    if m > k { viol = viol.or(err(format!("write-count: {m} bytes reported as accepted, {k} were offered"))); }
                                     if m > room || (m == 0 && k > 0) { viol = viol.or(err(format!("write-overflow: accepted {m} bytes with room {room}"))); }
                                     fifo[e].extend(&data[..m.min(data.len())]);
                                     counter[e] += m as u8;
